@@ -706,7 +706,7 @@ func c07CreateCase(version string, prev bool, dom string, creator bool, rv strin
 
 func init() {
 	rule := "non-trivial = the verdict is decided by a type-specific rule of the reference (not by 'no create event / other room' or 'sender is not in the room'); distinct = distinct Case JSON. Classes are the deciding rule ids of DESIGN Appendix A."
-	vfRapid("C07/random", rule, 6000, 300000, 16, c07GenRandom, c07Check)
+	vfRapid("C07/random", rule, 6000, 1000000, 16, c07GenRandom, c07Check)
 	vfEnum("C07/membership-product", rule+" Product: 16 versions x 7 new memberships x self/other x 6 sender memberships x 6 target memberships x 7 join rules x sender level {<,=,>} threshold x target level {<,=,>} sender x restricted-join authoriser states; size = sampling stride (1 = complete).", 12, 1, 16, c07EnumMember, c07Check)
 	vfEnum("C07/generic-product", rule+" Product: 16 versions x 12 event kinds x 6 sender memberships x level {<,=,>} requirement x m.federate {absent,true,false} x sender server x power-levels present/absent, plus the create-event product; size = sampling stride.", 4, 1, 8, c07EnumGeneric, c07Check)
 }
